@@ -16,7 +16,6 @@ use midnight_proofs::poly::kzg::params::ParamsVerifierKZG;
 use midnight_proofs::transcript::{Hashable, Sampleable, TranscriptHash};
 use midnight_zk_stdlib::MidnightVK;
 use std::io::{self, Read};
-use std::mem::MaybeUninit;
 
 type F = midnight_curves::Fq;
 
@@ -64,7 +63,9 @@ struct Store<const N: usize>([u8; N]);
 fn fake_vks<'a>(store: &'a Store<{ 2 * core::mem::size_of::<MidnightVK>() }>, n: usize) -> &'a [MidnightVK] {
     unsafe { core::slice::from_raw_parts(store.0.as_ptr() as *const MidnightVK, n) }
 }
-fn fake_params<'a>(store: &'a MaybeUninit<ParamsVerifierKZG<midnight_curves::Bls12>>) -> &'a ParamsVerifierKZG<midnight_curves::Bls12> {
+/// The verifier parameters are only ever handed to the stubbed `DualMSM::check`: uninitialised, never
+/// read memory (zeroing two prepared G2 points is ~40 kB of array theory for CBMC).
+fn fake_params<'a>(store: &'a core::mem::MaybeUninit<ParamsVerifierKZG<midnight_curves::Bls12>>) -> &'a ParamsVerifierKZG<midnight_curves::Bls12> {
     unsafe { &*store.as_ptr() }
 }
 
@@ -73,66 +74,53 @@ fn pis_of(a: bool, b: bool) -> [Vec<F>; 2] {
     [if a { vec![one] } else { vec![] }, if b { vec![one] } else { vec![] }]
 }
 
-/// lengths of vks / pis / proofs each in {0,1,2}, public-input vectors of length 0 or 1:
-/// `batch_verify` returns a Result (never panics).
-#[cfg_attr(kani, kani::proof)]
-#[cfg_attr(kani, kani::unwind(4))]
-#[cfg_attr(kani, kani::stub(midnight_proofs::plonk::prepare, crate::stubs::prepare_stub))]
-#[cfg_attr(kani, kani::stub(midnight_proofs::poly::kzg::msm::DualMSM::check, crate::stubs::DualStubs::check))]
-#[cfg_attr(kani, kani::stub(midnight_proofs::poly::kzg::msm::DualMSM::scale, crate::stubs::DualStubs::scale))]
-#[cfg_attr(kani, kani::stub(midnight_proofs::poly::kzg::msm::DualMSM::add_msm, crate::stubs::DualStubs::add_msm))]
-pub fn batch_verify_lengths() {
-    let nv: usize = any();
-    let np: usize = any();
-    let nf: usize = any();
-    assume(nv <= 2 && np <= 2 && nf <= 2);
-    let (a, b): (bool, bool) = (any(), any());
+fn run_batch(nv: usize, np: usize, nf: usize, a: bool, b: bool) {
     let store = Store([0u8; 2 * core::mem::size_of::<MidnightVK>()]);
-    let pstore = MaybeUninit::zeroed();
+    let pstore = core::mem::MaybeUninit::uninit();
     let vks = fake_vks(&store, nv);
     let pis = pis_of(a, b);
     let proofs: [Vec<u8>; 2] = [vec![], vec![]];
-    crate::vcover!(nv == 0 && np == 0 && nf == 0);
-    crate::vcover!(nv == 2 && np == 2 && nf == 2);
     let r = midnight_zk_stdlib::batch_verify::<KH>(fake_params(&pstore), vks, &pis[..np], &proofs[..nf]);
     if nv != np || nv != nf {
         assert!(matches!(r, Err(Error::InvalidInstances)));
     }
-    crate::vcover!(r.is_ok());
+    if nv >= 1 {
+        crate::vcover!(r.is_ok());
+    }
     core::mem::forget(r);
     core::mem::forget(pis);
     core::mem::forget(proofs);
 }
 
-/// same with at least one member: the non-empty part of the claim, kept separate so that it stays
-/// decided whatever happens to the empty batch
-#[cfg_attr(kani, kani::proof)]
-#[cfg_attr(kani, kani::unwind(4))]
-#[cfg_attr(kani, kani::stub(midnight_proofs::plonk::prepare, crate::stubs::prepare_stub))]
-#[cfg_attr(kani, kani::stub(midnight_proofs::poly::kzg::msm::DualMSM::check, crate::stubs::DualStubs::check))]
-#[cfg_attr(kani, kani::stub(midnight_proofs::poly::kzg::msm::DualMSM::scale, crate::stubs::DualStubs::scale))]
-#[cfg_attr(kani, kani::stub(midnight_proofs::poly::kzg::msm::DualMSM::add_msm, crate::stubs::DualStubs::add_msm))]
-pub fn batch_verify_lengths_nonempty() {
-    let nv: usize = any();
-    let np: usize = any();
-    let nf: usize = any();
-    assume(nv >= 1 && nv <= 2 && np <= 2 && nf <= 2);
-    let (a, b): (bool, bool) = (any(), any());
-    let store = Store([0u8; 2 * core::mem::size_of::<MidnightVK>()]);
-    let pstore = MaybeUninit::zeroed();
-    let vks = fake_vks(&store, nv);
-    let pis = pis_of(a, b);
-    let proofs: [Vec<u8>; 2] = [vec![], vec![]];
-    crate::vcover!(nv == 2 && np == 2 && nf == 2);
-    let r = midnight_zk_stdlib::batch_verify::<KH>(fake_params(&pstore), vks, &pis[..np], &proofs[..nf]);
-    if nv != np || nv != nf {
-        assert!(matches!(r, Err(Error::InvalidInstances)));
-    }
-    crate::vcover!(r.is_ok());
-    core::mem::forget(r);
-    core::mem::forget(pis);
-    core::mem::forget(proofs);
+macro_rules! batch_harness {
+    ($(#[$doc:meta])* $name:ident, $nv:expr) => {
+        $(#[$doc])*
+        #[cfg_attr(kani, kani::proof)]
+        #[cfg_attr(kani, kani::unwind(4))]
+        #[cfg_attr(kani, kani::stub(midnight_proofs::plonk::prepare, crate::stubs::prepare_stub))]
+        #[cfg_attr(kani, kani::stub(midnight_proofs::poly::kzg::msm::DualMSM::check, crate::stubs::DualStubs::check))]
+        #[cfg_attr(kani, kani::stub(midnight_proofs::poly::kzg::msm::DualMSM::scale, crate::stubs::DualStubs::scale))]
+        #[cfg_attr(kani, kani::stub(midnight_proofs::poly::kzg::msm::DualMSM::add_msm, crate::stubs::DualStubs::add_msm))]
+        pub fn $name() {
+            let np: usize = any();
+            let nf: usize = any();
+            assume(np <= 2 && nf <= 2);
+            crate::vcover!(np == $nv && nf == $nv);
+            crate::vcover!(np != $nv);
+            run_batch($nv, np, nf, any(), any());
+        }
+    };
 }
+batch_harness!(
+    /// vks.len() = 0, pis.len() and proofs.len() symbolic in {0,1,2}: a Result, never a panic; a length
+    /// mismatch is `Err(InvalidInstances)`. Predicted defect F3 (the empty batch).
+    batch_verify_no_keys, 0);
+batch_harness!(
+    /// vks.len() = 1, pis.len() and proofs.len() symbolic in {0,1,2}, public-input vectors of length 0/1
+    batch_verify_one_key, 1);
+batch_harness!(
+    /// vks.len() = 2 (thorough tier)
+    batch_verify_two_keys, 2);
 
 /// Relation whose instance is the raw public-input vector.
 #[derive(Clone, Debug)]
@@ -176,13 +164,13 @@ pub fn verify_pins_public_input_count() {
     let store = Store(kani::any());
     #[cfg(not(kani))]
     let store = Store([0u8; 2 * core::mem::size_of::<MidnightVK>()]);
-    let pstore = MaybeUninit::zeroed();
+    let pstore = core::mem::MaybeUninit::uninit();
     let vk = &fake_vks(&store, 1)[0];
     let one = <F as ff::Field>::ONE;
     let full = vec![one, one, one];
     let ia = full[..la].to_vec();
     let ib = full[..lb].to_vec();
-    let proof = [7u8; 1];
+    let proof = [0u8; 0];
     let ra = midnight_zk_stdlib::verify::<RawRel, KH>(fake_params(&pstore), vk, &ia, None, &proof);
     let rb = midnight_zk_stdlib::verify::<RawRel, KH>(fake_params(&pstore), vk, &ib, None, &proof);
     let (ia_err, ib_err) = (matches!(ra, Err(Error::InvalidInstances)), matches!(rb, Err(Error::InvalidInstances)));
